@@ -248,9 +248,12 @@ def model_expr(prep, res, idx):
     for i, (sess, out) in enumerate(zip(prep["parts"], res["outs"])):
         sess = dict(sess)
         acts = []
-        for a in sess["acts"]:
+        rs = out.get("results", [])
+        for j, a in enumerate(sess["acts"]):
             if a["a"] == "reduce":
-                a = dict(a, evicts=evicted_from_log(out.get("log", [])))
+                # the entries THIS reduce_size call removed: the rmdir's of entry directories inside its own span of the log
+                lo, hi = rs[j]["ops"] if j < len(rs) and "ops" in rs[j] else (0, 0)
+                a = dict(a, evicts=evicted_from_log(out.get("log", [])[lo:hi]))
             acts.append(a)
         sess["acts"] = acts
         parts.append("Some %s" % base.coq_sess(sess, prep["tid0"] + 1 + i))
